@@ -69,7 +69,13 @@ type explorer struct {
 }
 
 // Note records a named fact about this execution (counted per distinct name in Stats.Notes).
-func (x *Exec) Note(name string) { x.s.noteSet[name] = true }
+func (x *Exec) Note(name string) {
+	if fs := free; fs != nil {
+		fs.mu.Lock()
+		defer fs.mu.Unlock()
+	}
+	x.s.noteSet[name] = true
+}
 
 // Sched gives access to the trace of this execution.
 func (x *Exec) Trace() []string { return x.s.trace }
@@ -114,6 +120,10 @@ func Explore(cfg Config) *Stats {
 		cfg.SplitLvl = 2
 	}
 	st := &Stats{Outcomes: map[string]int64{}, Exhaustive: true, Notes: map[string]int64{}}
+	if FreeRuns > 0 {
+		exploreFree(cfg, st)
+		return st
+	}
 	e := &explorer{cfg: cfg, st: st, states: map[uint64]struct{}{}, vkeys: map[string]bool{}}
 	e.explore(nil, nil, 0)
 	st.States = int64(len(e.states))
@@ -372,12 +382,22 @@ func Aborting() bool { return cur != nil && cur.aborting }
 // EnvGet / EnvSet: per-execution key/value storage (the mock clock lives under "clock").
 func EnvGet(k string) any {
 	if cur == nil {
+		if fs := free; fs != nil {
+			fs.mu.Lock()
+			defer fs.mu.Unlock()
+			return fs.env[k]
+		}
 		return nil
 	}
 	return cur.env[k]
 }
 
 func EnvSet(k string, v any) {
+	if fs := free; cur == nil && fs != nil {
+		fs.mu.Lock()
+		fs.env[k] = v
+		fs.mu.Unlock()
+	}
 	if cur != nil {
 		cur.env[k] = v
 	}
